@@ -224,6 +224,11 @@ def run(prog, check):
                              'object IDs (which follow declaration order) are compared for identity only' if ok else
                              'object IDs follow declaration order and are used for %s: the outcome depends on the order of declaration' % kind,
                              'the same sectors declared in another order')
+    # registered cash flows are deferred, never filtered: the registering method records every call
+    from ._common import registration_always_recorded
+    for rf_, ok_, why_ in registration_always_recorded(prog, 'RegisteredCashFlows', 3):
+        check.saw(rf_)
+        check.ob('C08.R3', '%s::flow-registration-always-recorded' % rf_.key, ok_, rf_.where, why_, 'a flow registered by a sector that is processed before the sector creating the amount variable')
     check.floor('C08.R3', 5)
     # ---- R2 ----------------------------------------------------------------------------------------
     n2 = 0
